@@ -268,7 +268,7 @@ func runC16(s *core.Sim, tier string) RunInfo {
 		w.OracleAttrs = nil
 		if p.fromHeight == 0 && p.fromHash == "" && p.window < 2*space {
 			// a window shorter than two blocks puts the tail at the head itself: every prune then
-			// reaches into heights the sync loop is appending at that moment (K03)
+			// reaches into heights the sync loop is appending at that moment (F28, repaired)
 			w.OracleAttrs = map[string]string{"window": "below-two-blocks"}
 		}
 		w.checkStoreIsHonestChain(fmt.Sprintf("cycle %d [%s]", c, p.desc), true)
